@@ -321,8 +321,12 @@ func SrvRealChild(args []string) {
 		if origin != nil {
 			// connections the server still holds to the origin once everything is answered (idle ones of the
 			// connection pool included): bounded by the pool, whatever the number of failures before
-			time.Sleep(150 * time.Millisecond)
-			out = append(out, fmt.Sprintf("conns=%d", origin.openConns()))
+			n := origin.openConns()
+			for wait := 0; wait < 40 && n > 4; wait++ { // closing is asynchronous: give it up to two seconds
+				time.Sleep(50 * time.Millisecond)
+				n = origin.openConns()
+			}
+			out = append(out, fmt.Sprintf("conns=%d", n))
 		}
 		out = append(out, fmt.Sprintf("maxcache=%d", max))
 	}
